@@ -307,6 +307,10 @@ def fixed_cases() -> list[dict[str, Any]]:
     out.append(honest_tapscript(b"\x75\x51", [b"\x01" * 521], tf, "oversized witness element"))
     out.append(honest_tapscript(b"\x51", [], tf, "unknown leaf version", ver=0xC2))
     out.append(honest_tapscript(b"\x51", [], tf + ["DISCOURAGE_UPGRADABLE_TAPROOT_VERSION"], "unknown leaf version (discourage)", ver=0xC2))
+    # the size of the control block: a leaf on the deepest level BIP341 allows (128 nodes, 4129 bytes), the level above it, and one past it
+    rd = random.Random(341)
+    for depth in (0, 1, 127, 128, 129):
+        out.append(tapscript_spend(rd, b"\x51", [], tf, (2, 0, 0xFFFFFFFF), path_len=depth))
     return out
 
 
@@ -447,8 +451,13 @@ def record_sig_spends(run: Run, n: int) -> list[dict[str, Any]]:
     from btclib.tx import OutPoint, Tx, TxIn, TxOut
     from btclib.exceptions import BTClibException
 
+    from btclib.curves import set_libsecp256k1_serving
+    from btclib.curves.curve import is_libsecp256k1_serving
+
+    BINDINGS = is_libsecp256k1_serving()
     r = random.Random(run.seed + 8)
     N_ = 0xFFFFFFFFFFFFFFFFFFFFFFFFFFFFFFFEBAAEDCE6AF48A03BBFD25E8CD0364141
+    FP_ = 2**256 - 2**32 - 977
     evs = []
 
     def push(b: bytes) -> bytes:
@@ -458,8 +467,16 @@ def record_sig_spends(run: Run, n: int) -> list[dict[str, Any]]:
         P = mult(d)
         x, y = P[0].to_bytes(32, "big"), P[1].to_bytes(32, "big")
         # c compressed, u uncompressed, h hybrid; malformed: x = 33 bytes under prefix 05, s = 32 bytes under 02, l = 34 bytes under 02, t = 65 bytes under 02, e = empty
+        # well-formed by size and prefix and yet no point: o = compressed with an x that is on no point of the curve, p = compressed with x >= the field size,
+        # w = uncompressed with another y, g = hybrid whose prefix states the other parity
+        if form == "o":
+            xi = P[0]
+            while pow((xi**3 + 7) % FP_, (FP_ - 1) // 2, FP_) == 1:
+                xi += 1
+            return b"\x02" + xi.to_bytes(32, "big")
         return {"c": bytes([2 + P[1] % 2]) + x, "u": b"\x04" + x + y, "h": bytes([6 + P[1] % 2]) + x + y, "x": b"\x05" + x, "s": b"\x02" + x[:31], "l": b"\x02" + x + b"\x00",
-                "t": b"\x02" + x + y, "e": b""}[form]
+                "t": b"\x02" + x + y, "e": b"", "p": b"\x03" + (FP_ + 5).to_bytes(32, "big"), "w": b"\x04" + x + ((P[1] + 1) % FP_).to_bytes(32, "big"),
+                "g": bytes([7 - P[1] % 2]) + x + y}[form]
 
     # stratified: every (signature pattern, [NOT], CHECKSIG / CHECKMULTISIG) cell is visited n/44 times, the rest (keys, wrapping, flags) is drawn
     patterns = ["all valid", "one empty", "last empty", "first empty", "reversed", "one wrong message", "one high s", "hash type 0", "one padded r", "all empty", "wrong key"]
@@ -467,14 +484,16 @@ def record_sig_spends(run: Run, n: int) -> list[dict[str, Any]]:
     r.shuffle(cells)
     # the public-key encoding rules, cell by cell: every key form x every wrapping x the four settings of (STRICTENC, WITNESS_PUBKEYTYPE) x a valid
     # signature or an empty one under OP_NOT (the two ways a wrongly tolerated key shows)
-    key_family = [(form, wrap_, se, wp, pat) for form in "cuhxslte" for wrap_ in ("bare", "p2sh", "p2wsh", "p2sh-p2wsh") for se in (False, True) for wp in (False, True)
-                  for pat in ("all valid", "all empty")]
+    # (and a well-encoded signature under OP_NOT: how a key that is no point shows, the check failing and the script going on); each cell is judged with the
+    # bindings serving and with the Python arithmetic, the verdict being Core's on either arm
+    key_family = [(form, wrap_, se, wp, pat, tl) for form in "cuhxslteopwg" for wrap_ in ("bare", "p2sh", "p2wsh", "p2sh-p2wsh") for se in (False, True) for wp in (False, True)
+                  for pat, tl in (("all valid", b""), ("all empty", b"\x91"), ("all valid", b"\x91"))]
     for it in range(n + len(key_family)):
         fam = key_family[it - n] if it >= n else None
-        pattern, tail, multi = cells[it % len(cells)] if fam is None else (fam[4], b"\x91" if fam[4] == "all empty" else b"", False)
+        pattern, tail, multi = cells[it % len(cells)] if fam is None else (fam[4], fam[5], False)
         nk = r.choice([1, 1, 2, 3]) if multi else 1
         ds = [r.randrange(1, N_) for _ in range(nk)]
-        forms = [r.choice("cccccuuhhxslte") for _ in range(nk)] if fam is None else [fam[0]]
+        forms = [r.choice("cccccuuhhxslteopwg") for _ in range(nk)] if fam is None else [fam[0]]
         keys = [key_bytes(d, f) for d, f in zip(ds, forms)]
         m = r.randint(1, nk) if multi else 1
         # (tail = OP_NOT: the script survives a false)
@@ -551,16 +570,96 @@ def record_sig_spends(run: Run, n: int) -> list[dict[str, Any]]:
         flags = consistent({f for f in ALL if r.random() < 0.6} | ({"P2SH"} if "p2sh" in wrap else set()) | ({"WITNESS", "P2SH"} if "wsh" in wrap else set()))
         if fam is not None:
             flags = consistent((set(flags) - {"STRICTENC", "WITNESS_PUBKEYTYPE", "NULLFAIL", "SIGPUSHONLY", "CLEANSTACK"}) | ({"STRICTENC"} if fam[2] else set()) | ({"WITNESS_PUBKEYTYPE"} if fam[3] else set()))
-        try:
-            verify_input([prev], tx, 0, flags)
-            ok: Any = True
-        except BTClibException:
-            ok = False
-        except Exception as e:  # noqa: BLE001
-            ok = f"foreign {type(e).__name__}: {e}"[:120]
-        evs.append({"op": "verify", "tx": tx.serialize(include_witness=True, check_validity=False).hex(), "prevouts": [{"value": nat(amount), "spk": spk.hex()}], "idx": 0, "flags": flags, "ok": ok,
-                    "kind": f"{'multisig ' + str(m) + '-of-' + str(nk) if multi else 'checksig'} {wrap} {pattern} keys {''.join(forms)}{' NOT' if tail else ''}"})
+        for arm in ((True, False) if fam is not None or it % 5 == 0 else (True,)):
+            if not arm and not BINDINGS:
+                continue
+            if BINDINGS:
+                set_libsecp256k1_serving(serving=arm)
+            try:
+                verify_input([prev], tx, 0, flags)
+                ok: Any = True
+            except BTClibException:
+                ok = False
+            except Exception as e:  # noqa: BLE001
+                ok = f"foreign {type(e).__name__}: {e}"[:120]
+            finally:
+                if BINDINGS:
+                    set_libsecp256k1_serving(serving=True)
+            evs.append({"op": "verify", "tx": tx.serialize(include_witness=True, check_validity=False).hex(), "prevouts": [{"value": nat(amount), "spk": spk.hex()}], "idx": 0, "flags": flags, "ok": ok,
+                        "kind": f"{'multisig ' + str(m) + '-of-' + str(nk) if multi else 'checksig'} {wrap} {pattern} keys {''.join(forms)}{' NOT' if tail else ''}{'' if arm else ' (Python arithmetic)'}"})
     return evs
+
+
+def record_tapscript_codesep_spends(run: Run) -> list[dict[str, Any]]:
+    """Tapscript leaves whose signature checks sit behind OP_CODESEPARATORs: a BIP342 signature commits to the position (counted in op codes, pushes
+    included) of the last OP_CODESEPARATOR executed before its check, 0xffffffff where none was.  Every leaf shape (the separator after each op code that
+    the engines expand or treat specially: CHECKSIGVERIFY, EQUALVERIFY, NUMEQUALVERIFY, CHECKSIGADD, inside a taken and an untaken branch, two separators,
+    after a push of each width) x the signature of each check made for the right position, for the position one below and one above it, and for none."""
+    from btclib.curves import mult
+    from btclib.ecc import ssa
+    from btclib.exceptions import BTClibException
+    from btclib.script import sig_hash, taproot
+    from btclib.script.engine import verify_input
+    from btclib.script.script_pub_key import ScriptPubKey
+    from btclib.script.witness import Witness
+    from btclib.tx import OutPoint, Tx, TxIn, TxOut
+
+    r = random.Random(run.seed + 17)
+    N_ = 0xFFFFFFFFFFFFFFFFFFFFFFFFFFFFFFFEBAAEDCE6AF48A03BBFD25E8CD0364141
+    NONE = 0xFFFFFFFF
+    d1, d2 = r.randrange(1, N_), r.randrange(1, N_)
+    k1, k2 = (b"\x20" + mult(d)[0].to_bytes(32, "big") for d in (d1, d2))
+    SEP, CS, CSV, CSA = b"\xab", b"\xac", b"\xad", b"\xba"
+    blob = bytes(range(76))
+    # (leaf, [(private key, position its signature commits to)] in the order the checks run; the witness is the signatures reversed)
+    shapes: list[tuple[str, bytes, list[tuple[int, int]]]] = [
+        ("separator first", SEP + k1 + CS, [(d1, 0)]),
+        ("separator after CHECKSIGVERIFY", k1 + CSV + SEP + k2 + CS, [(d1, NONE), (d2, 2)]),
+        ("two separators around CHECKSIGVERIFY", SEP + k1 + CSV + SEP + k2 + CS, [(d1, 0), (d2, 3)]),
+        ("separator after EQUALVERIFY", b"\x51\x51\x88" + SEP + k1 + CS, [(d1, 3)]),
+        ("separator after NUMEQUALVERIFY", b"\x52\x52\x9d" + SEP + k1 + CS, [(d1, 3)]),
+        ("separator between CHECKSIGADDs", b"\x00" + k1 + CSA + SEP + k2 + CSA + b"\x52\x9c", [(d1, NONE), (d2, 3)]),
+        ("separator after two CHECKSIGVERIFYs", k1 + CSV + k2 + CSV + SEP + k1 + CS, [(d1, NONE), (d2, NONE), (d1, 4)]),
+        ("separator in a taken branch", b"\x51\x63" + SEP + b"\x68" + k1 + CS, [(d1, 2)]),
+        ("separator in an untaken branch", b"\x00\x63" + SEP + b"\x68" + k1 + CS, [(d1, NONE)]),
+        ("separator in the else of a taken branch, then one that runs", b"\x51\x63\x67" + SEP + b"\x68" + k1 + CSV + SEP + k2 + CS, [(d1, NONE), (d2, 7)]),
+        ("separator after an OP_PUSHDATA1", b"\x4c\x4c" + blob + b"\x75" + SEP + k1 + CS, [(d1, 2)]),
+        ("separator after VERIFY and NOT", b"\x51\x69\x00\x91\x69" + SEP + k1 + CS, [(d1, 5)]),
+        ("separator last", k1 + CS + SEP, [(d1, NONE)]),
+        ("separator after CHECKSIGVERIFY, EQUALVERIFY and NUMEQUALVERIFY", k1 + CSV + b"\x53\x53\x88\x54\x54\x9d" + SEP + k2 + CS, [(d1, NONE), (d2, 8)]),
+    ]
+    evs = []
+    internal = mult(r.randrange(1, N_))[0].to_bytes(32, "big")
+    for name, script, checks in shapes:
+        lh = taproot.leaf_hash(0xC0, script)
+        outkey, parity = taproot.output_pubkey_from_merkle_root(internal, lh)
+        control = bytes([0xC0 + parity]) + internal
+        spk = b"\x51\x20" + outkey
+        prev = TxOut(90_000, ScriptPubKey(spk, check_validity=False), check_validity=False)
+        variants: list[tuple[str, list[int]]] = [("every signature for its position", [pos for _, pos in checks])]
+        for j, (_, pos) in enumerate(checks):
+            for label, other in (("one below", (pos - 1) & 0xFFFFFFFF), ("one above", (pos + 1) & 0xFFFFFFFF), ("none", NONE), ("zero", 0)):
+                if other != pos:
+                    variants.append((f"signature {j} for the position {label}", [other if i == j else p_ for i, (_, p_) in enumerate(checks)]))
+        for vname, positions in variants:
+            tx = Tx(2, 0, [TxIn(OutPoint(b"\x32" * 32, 1), b"", 0xFFFFFFFD, check_validity=False)], [TxOut(80_000, ScriptPubKey(b"\x51", check_validity=False), check_validity=False)], check_validity=False)
+            sigs = []
+            for (d, _), pos in zip(checks, positions):
+                msg = sig_hash.taproot(tx, 0, [prev], 0, 1, b"", lh + b"\x00" + pos.to_bytes(4, "little"))
+                sigs.append(ssa.sign_(msg, d, bytes(32)).serialize())
+            tx.vin[0].script_witness = Witness([*sigs[::-1], script, control])
+            flags = ["P2SH", "WITNESS", "TAPROOT"] + (["NULLFAIL"] if r.random() < 0.5 else [])
+            try:
+                verify_input([prev], tx, 0, flags)
+                ok: Any = True
+            except BTClibException:
+                ok = False
+            except Exception as e:  # noqa: BLE001
+                ok = f"foreign {type(e).__name__}: {e}"[:120]
+            evs.append({"op": "verify", "tx": tx.serialize(include_witness=True, check_validity=False).hex(), "prevouts": [{"value": nat(90_000), "spk": spk.hex()}], "idx": 0, "flags": flags, "ok": ok,
+                        "kind": f"tapscript {name}: {vname}"})
+    return evs
+
 
 
 def record_tapscript_sig_spends(run: Run, n: int) -> list[dict[str, Any]]:
@@ -723,6 +822,7 @@ def check(run: Run) -> None:
         sig_evs.append({**{k: v for k, v in e.items() if k in keep}, "ok": ok, "kind": f"core vector: {mta[4] if len(mta) > 4 else mta[:2]}"})
     sig_evs += record_sig_spends(run, 1500 if thorough else 300)
     sig_evs += record_tapscript_sig_spends(run, 1200 if thorough else 300)
+    sig_evs += record_tapscript_codesep_spends(run)
     for e in sig_evs:
         if isinstance(e["ok"], str):
             run.violation(f"script|verify|foreign|{e['ok'].split(':')[0]}", f"verify_input ({e.get('kind')}) raised {e['ok']}", {"event": e})
